@@ -15,7 +15,7 @@ for pid, c in claims['claims'].items():
         "evidence_file": f"/verif/evidence/{pid}.json",
         "replay_cmd_template": f"./check {pid} --replay {{path}}",
         "engine": "govc",
-        "level_claimed": {"category": "proof", "text": c["text"], "design_ref": c.get("design_ref", "DESIGN.md section 5")},
+        "level_claimed": {"category": c.get("category", "proof"), "text": c["text"], "design_ref": c.get("design_ref", "DESIGN.md section 5")},
         "level_note": c["note"],
         "technique": c.get("technique", "contract-based deductive verification: WP-style verification conditions generated from go/ssa of the real functions against //@ contracts, discharged by z3/cvc5"),
     })
